@@ -91,6 +91,22 @@ class Gates:
             elif src_origin in self.loaders:
                 self.gates[b["key"]] = (atomics.resolve_ordering(self.loaders[src_origin], B, self._last_cmp_term), None)
 
+        # `count.compare_exchange(1, 1, Acquire, Relaxed).is_ok()` as the gate's own body: the strong exchange answers Ok exactly
+        # when the count is 1 and leaves the word as it is (the success ordering is the gate's ordering)
+        for b in F.body_list:
+            if b["key"] in self.gates or "output" not in b or F.ts(b["output"]) != "bool":
+                continue
+            B = cfg.Body(b)
+            o = self._ret_origin(B)
+            if not (o and o.get("kind") == "call" and atomics.callee_of(o["term"]) == "<core::result::Result<T, E>>::is_ok" and o["term"]["args"]):
+                continue
+            o2 = B.origin(o["term"]["args"][0])
+            if o2.get("kind") == "rvalue" and o2["rv"]["k"] == "ref" and not o2["rv"]["place"]["p"]:
+                o2 = B.origin_local(o2["rv"]["place"]["l"])
+            t2 = o2.get("term") if o2.get("kind") == "call" else None
+            if t2 is not None and atomics.atomic_class(t2) == model.ATOMIC_CAS and atomics.receiver_is_count(F, B, t2) and atomics.cas_test(t2) == 1 and not atomics.cas_is_weak(t2):
+                self.gates[b["key"]] = (atomics.ordering_of(B, t2["args"][3]) if len(t2["args"]) > 3 else None, None)
+
     def _match_gate(self, B):
         """`fn is_unique(&self) -> bool { matches!(self.count(), 1) }`: the result is assigned `true` exactly behind the arm for the
         value 1 of a switch on the loaded count, `false` elsewhere. Returns the ordering of the load or None."""
@@ -746,6 +762,36 @@ def rule_gate_def(ctx, rep, with_release=True):
         c02.rule_dec_release(ctx, rep)
 
 
+RAW_WRITES = ("core::ptr::write", "<*mut T>::write", "core::ptr::write_volatile", "<*mut T>::write_volatile", "core::ptr::write_unaligned", "<*mut T>::write_unaligned", "core::ptr::write_bytes", "<*mut T>::write_bytes", "core::ptr::replace", "<*mut T>::replace", "core::ptr::swap", "<*mut T>::swap", "core::ptr::drop_in_place", "<*mut T>::drop_in_place")
+RAW_COPIES = ("core::ptr::copy_nonoverlapping", "core::ptr::copy", "core::intrinsics::copy_nonoverlapping", "core::intrinsics::copy")
+
+
+def _written_through(B, l):
+    """Is the raw pointer defined into local `l` written through in this body: destination of a `ptr::write`-style call or copy, or
+    dereferenced on the left of an assignment? (`addr_of_mut!` that only ends up as the `*const T` a function hands out is not.)"""
+    def same(op):
+        o = B.origin(op)
+        return o.get("local") == l
+
+    for bi, t in B.calls():
+        path = atomics.callee_of(t) or ""
+        if not t["args"]:
+            continue
+        if path in RAW_WRITES and same(t["args"][0]):
+            return True
+        if (path in RAW_COPIES and len(t["args"]) > 1 and same(t["args"][1])) or (path.endswith(">::copy_to") or path.endswith(">::copy_to_nonoverlapping")) and len(t["args"]) > 1 and same(t["args"][1]):
+            return True
+        if (path.endswith(">::copy_from") or path.endswith(">::copy_from_nonoverlapping")) and same(t["args"][0]):
+            return True
+    for bl in B.blocks:
+        for s in bl["stmts"]:
+            if s["k"] == "assign" and s["lhs"]["p"] and s["lhs"]["p"][0] == "deref":
+                o = B.origin_local(s["lhs"]["l"])
+                if o.get("local") == l or s["lhs"]["l"] == l:
+                    return True
+    return False
+
+
 def rule_gate(ctx, rep):
     """R-GATE over every producer of exclusive access in the crate (and R-GATE-DEF)."""
     for tag, F, E in ctx.each():
@@ -776,6 +822,9 @@ def rule_gate(ctx, rep):
                         prod, root_pl = "write into the payload", s["lhs"]
                     elif rv["k"] == "ref" and rv["mut"] and _has_data(F, rv["place"]) and not s["span"].get("exp_internal"):
                         prod, root_pl = "mutable borrow of the payload", rv["place"]
+                    elif rv["k"] == "rawptr" and rv.get("mut") and _has_data(F, rv["place"]) and not s["span"].get("exp_internal") and _written_through(B, s["lhs"]["l"]):
+                        # `addr_of_mut!((*p).data.field)`: taken to be written through (`.write(v)`), which needs the same licence as `&mut`
+                        prod, root_pl = "mutable raw pointer to the payload", rv["place"]
                     elif rv["k"] == "ref" and rv["mut"] and rv["place"]["p"] and rv["place"]["p"][0] == "deref" and _via_data_pointer_handle(F, B, rv["place"]["l"]) is not None:
                         # `&mut *p` where p is the value pointer stored in an OffsetArc / ArcBorrow: the payload without passing through INNER
                         prod, root_pl = "mutable borrow of the payload", _via_data_pointer_handle(F, B, rv["place"]["l"])
@@ -935,6 +984,7 @@ def run(ctx, rep):
     from . import c07 as _c07
 
     _c07.rule_guard(ctx, rep)  # a handle re-pointed behind a transient must be written back on every exit, or the count of its old block no longer matches its owners
+    balance.rule_write_provenance(ctx, rep)  # an owner's pointer must allow the writes owners make (count, get_mut, the final drop)
     balance.rule_writeback(ctx, rep)
     balance.rule_count_addr(ctx, rep)
     rep.floor("R-COUNT-ADDR", 1, "one instance per run")
@@ -961,6 +1011,12 @@ def rule_panic_decline(ctx, rep):
                 first = callees[0] if callees else None
                 direct = any(e["kind"] == "DATAREF" and e["detail"]["mut"] for p in A.paths[b["key"]] for e in p.events)
                 fb = F.body(first) if first else None
+                inline_match = False
+                if fb is not None and "output" in fb and F.ts(fb["output"]).startswith("core::result::Result<") and F.mentions_adt(fb["output"], F.handle_paths.get("UniqueArc")):
+                    # the writer matches on the `Result<&mut UniqueArc, _>` itself (`Err(this) => { drop(val); not_unique(..) }`): it is
+                    # its own checking helper
+                    inline_match = True
+                    first, fb = b["key"], b
                 ok = fb is not None and not direct
                 why = None
                 if not ok:
@@ -982,7 +1038,7 @@ def rule_panic_decline(ctx, rep):
                             ok, why = False, balance.path_report(F, fb, p, "the checking helper returns although the uniqueness test declined (it must panic instead of granting write access)")
                     if n == 0:
                         ok, why = False, "the checking helper %s never returns" % first
-                    if ok and not F.mentions_adt(fb["output"], F.handle_paths.get("UniqueArc")):
+                    if ok and not inline_match and not F.mentions_adt(fb["output"], F.handle_paths.get("UniqueArc")):
                         ok, why = False, "the first call of the deprecated writer (%s) does not return `&mut UniqueArc`" % first
                 if ok:
                     rep.ok("R-PANIC-DECLINE", b["key"], cfg=tag)
